@@ -14,13 +14,14 @@ ck = importlib.util.module_from_spec(_spec)
 _loader.exec_module(ck)
 
 SCENARIOS = {
-    "C17": ["blocking", "timeout", "contended", "in_runtime", "deadletters", "blocking_ask_vs_end", "blocking", "timeout", "contended", "blocking_ask_vs_end", "end_vs_observers"],
+    "C17": ["blocking", "timeout", "contended", "in_runtime", "deadletters", "blocking_ask_vs_end", "blocking", "timeout", "contended", "blocking_ask_vs_end", "end_vs_observers", "erased_blocking"],
     "C01": ["async_mt"],
     "C03": ["ask_vs_end", "ask_vs_end", "async_mt", "end_vs_observers"],
     "C02": ["async_mt"],
     "C06": ["kill_then_drop", "kill_then_drop", "kill_then_drop", "async_mt"],
     "C11": ["ids", "end_vs_observers"],
     "C14": ["dd_mt"],
+    "C16": ["erased_blocking"],
     "C15": ["dd_mt"],
     "C13": ["deadletters", "blocking", "end_vs_observers", "ask_vs_end", "blocking_ask_vs_end"],
 }
@@ -28,7 +29,7 @@ SCENARIOS = {
 # "the actor replies, stops and closes its mailbox before the woken caller runs" needs that)
 RATES = ["0.01", "0.05", "0.2", "0"]
 # which property does a never-returning operation violate, per scenario
-HANG_PROP = {"async_mt": "C03", "ask_vs_end": "C03", "dd_mt": "C14"}
+HANG_PROP = {"async_mt": "C03", "ask_vs_end": "C03", "dd_mt": "C14", "erased_blocking": "C16"}
 
 def menv():
     e = ck.env()
@@ -76,7 +77,7 @@ def classify(code, out, hang_prop="C17"):
             _, prop, sig, text = l.split(" ", 3)
             v.append((prop, sig, text))
     if "the evaluated program deadlocked" in out:
-        v.append((hang_prop, "hang", "Miri reports that every thread is blocked forever: an operation never returned" + ({"C03": " (an ask on an actor that has ended waits forever)", "C14": " (actors are left waiting on each other: an ask cycle was not detected)"}.get(hang_prop, " (a blocking call never returned)"))))
+        v.append((hang_prop, "hang", "Miri reports that every thread is blocked forever: an operation never returned" + ({"C03": " (an ask on an actor that has ended waits forever)", "C14": " (actors are left waiting on each other: an ask cycle was not detected)", "C16": " (a blocking call through a type-erased handler blocks where the same call on the ActorRef returns)"}.get(hang_prop, " (a blocking call never returned)"))))
     elif "Undefined Behavior" in out or "Data race detected" in out:
         where = "rsactor" if "/src/actor" in out or "rsactor" in out else "elsewhere"
         if where == "rsactor":
@@ -157,6 +158,8 @@ def m_part(prop, tier, seed):
     n = 12 if tier == "quick" else 240
     if prop == "C13":
         n = 20 if tier == "quick" else 400
+    if prop == "C16":
+        n = 16 if tier == "quick" else 320
     if prop in ("C01", "C02", "C06"):
         n = 8 if tier == "quick" else 160
     if prop == "C03":
